@@ -17,7 +17,7 @@ use std::cell::{Cell, RefCell};
 use std::collections::HashMap;
 
 pub const ENVELOPE_SIZE: i32 = 5000;
-pub const ENVELOPE_TOPOLOGY: i32 = 300;
+pub const ENVELOPE_TOPOLOGY: i32 = 70_000;
 pub const ENVELOPE_HEAP: usize = 96 << 20;
 
 thread_local! {
@@ -177,6 +177,25 @@ fn sweep(ctx: &mut Ctx) {
                 } else if let Some(x) = st.int_stack.get_mut(0) {
                     *x = v;
                 }
+            }
+            // operand affinity: every fifth LIST.NEIGHBOR* state is a WELL-FORMED call (valid index, 1-3
+            // dimensions, small radius) whose size runs up to the envelope - the interesting arithmetic
+            // (edge lengths, squared coordinate differences) only happens for valid operands
+            if name.starts_with("LIST.NEIGHBOR*") && k % 5 == 2 {
+                let size = *r.pick(&[1i32, 27, 64, 1000, 4096, 46340, 46341, 46342, 50000, 65536, 70000]);
+                let dims = *r.pick(&[1i32, 1, 2, 3]);
+                let index = match r.below(3) {
+                    0 => 0,
+                    1 => size - 1,
+                    _ => r.below(size as usize) as i32,
+                };
+                st.int_stack.push(dims);
+                st.int_stack.push(index);
+                st.int_stack.push(size);
+                if name != "LIST.NEIGHBOR*IDS" {
+                    st.int_stack.push(0);
+                }
+                st.float_stack.push(*r.pick(&[0.0f32, 1.0, 1.5]));
             }
             // operand affinity: graph instructions get real node ids of the top graph now and then
             if name.starts_with("GRAPH.") && k % 2 == 1 && st.graph_stack.size() > 0 {
